@@ -254,13 +254,15 @@ def run_columns(ctx):
     # extension classes under a configuration file that overrides each list
     home = os.path.join(ctx.scratch, "cfg_home")
     os.makedirs(os.path.join(home, ".config", "fselect"))
-    over = {k: [".q%d" % i, ".zip"] for i, k in enumerate(lists) if k != "is_zip_archive"}
+    # lists with plain, compound (.tar.q3) and dot-less (makefile3) endings: "ends with", not "extension equals"
+    over = {k: [".q%d" % i, ".zip", ".tar.q%d" % i, "makefile%d" % i, ".d.ts"] for i, k in enumerate(lists) if k != "is_zip_archive"}
     with open(os.path.join(home, ".config", "fselect", "config.toml"), "w") as f:
         for k, vv in over.items():
             f.write("%s = [%s]\n" % (k, ", ".join('"%s"' % x for x in vv)))
     d = os.path.join(ctx.scratch, "cfgdir")
     os.mkdir(d)
-    names = ["a.q0", "b.Q1", "c.zip", "d.mp3", "e.rs", "f.q5", "g.pdf", "noext", ".q2"]
+    names = ["a.q0", "b.Q1", "c.zip", "d.mp3", "e.rs", "f.q5", "g.pdf", "noext", ".q2", "x.tar.q0", "y.TAR.Q3", "z.tar.q9x", "Makefile0", "gnumakefile4", "makefile5.bak", "types.d.ts", "d.ts",
+             "tar.q1", "w.tar.q2", "makefile7"]
     for nme in names:
         open(os.path.join(d, nme), "w").close()
     ccols = [k for k in over]
@@ -302,7 +304,7 @@ def run(ctx):
     m = run_modes(ctx)
     c = run_columns(ctx)
     ctx.coverage["columns_part"] = dict(queries=c["n"], entries_checked=c["ok"], distinct_entries=len(c["distinct"]), samples=c["samples"],
-                                        rule="random trees (files with contents: empty, shebang, no trailing newline, binary, > 64 KiB, 9000 newlines; mtimes incl. 0 and 2038+; owners without a name; xattrs; sockets; links incl. dangling; dot-files, several dots, upper-case extensions) - columns path,name,ext,dir,abspath,absdir,size,uid,gid,user,group,inode,hardlinks,blocks,modified,is_hidden,is_empty, the eight extension classes (default lists read from config.rs, and a configuration file overriding every list), sha1/sha256/sha512/sha3, line_count, is_shebang, has_xattrs compared with os.lstat, pwd/grp, hashlib and the directory contents")
+                                        rule="random trees (files with contents: empty, shebang, no trailing newline, binary, > 64 KiB, 9000 newlines; mtimes incl. 0 and 2038+; owners without a name; xattrs; sockets; links incl. dangling; dot-files, several dots, upper-case extensions) - columns path,name,ext,dir,abspath,absdir,size,uid,gid,user,group,inode,hardlinks,blocks,modified,is_hidden,is_empty, the eight extension classes (default lists read from config.rs, and a configuration file overriding every list with plain, compound and dot-less endings), sha1/sha256/sha512/sha3, line_count, is_shebang, has_xattrs compared with os.lstat, pwd/grp, hashlib and the directory contents")
     ctx.coverage.update(
         evaluations=m["evaluations"] + c["ok"], distinct_nontrivial=m["distinct"] + len(c["distinct"]),
         traces_validated_against_impl=m["agreed"],
